@@ -254,6 +254,8 @@ class Ctx:
         self.hist = {}
         self.model_lines = []
         self.model_meta = []
+        self.mask_lines, self.mask_meta = [], []
+        self.hist_lines, self.hist_meta = [], []
         self.worst = 0.0
 
     def count(self, name, key):
@@ -389,6 +391,28 @@ def run_case(ck, case, ctx):
         r_def = float(da.integrate().values)
         r_exp = float(da.integrate("triangular", 4).values)
         want, mag = exact_integral(ref_default, v)
+        # model tie: integrate on a grid object that stores areas / has a history (c06_integrate_grid)
+        try:
+            stored = g._ds["face_areas"].values if "face_areas" in g._ds else None
+            st_sx = "N" if stored is None else [int(min(max(float(x), -1e18), 1e18)) for x in np.asarray(stored, dtype=float)]
+            ops = []
+            if gc.get("source") == "assigned_face_areas":
+                ops.append([1, [2000000 + f for f in range(nf)]])
+            for op in case.get("pre", []):
+                ops.append(0 if op == "face_areas_mut" else [2])
+            ad_int, Kad = dyadic_scale(ref_default)
+            v_int, Kv = dyadic_scale(v)
+            ctx.hist_lines.append(sx([st_sx, ops, list(counts), ad_int, [[nf], [0], 7, 11, v_int]]))
+            ctx.hist_meta.append((case, Kad + Kv, r_def, mag[0]))
+            # boolean data: the area of the selected faces (c06_mask_sum)
+            mask = np.array([rng.random() < 0.5 for _ in range(nf)])
+            r_mask = float(mk_da(g, mask, ("n_face",), "m").integrate().values)
+            ctx.mask_lines.append(sx([ad_int, [int(b) for b in mask]]))
+            ctx.mask_meta.append((case, Kad, r_mask, float(np.sum(np.abs(ref_default)))))
+            if r_mask != float(mk_da(g, mask.astype(float), ("n_face",), "m").integrate().values):
+                ck.fail("value", case, dict(info0, centre="face", rule="default", what="bool vs float mask"), detail="bool data integrate differently from the same 0/1 floats")
+        except Exception as ex:
+            ck.fail("raises", case, dict(info0, centre="face", what="mask / history tie"), detail=repr(ex))
         if r_def != r_exp or not close(r_def, want[0], mag[0]):
             ck.fail("value", case, dict(info0, centre="face", rule="default", pre=" ".join(case.get("pre", [])) or "none"),
                     detail="integrate() = %r, integrate('triangular', 4) = %r, sum value*area(triangular 4, fresh grid) = %r"
@@ -440,6 +464,21 @@ def compare_models(ck, ctx):
                         break
         if why and len(ck.corr_failures) < 5:
             ck.corr_failures.append({"what": why, "centre": what, "dims": dims, "case": case["grid"]["name"]})
+    # integrate on a grid with stored areas / a history (c06_integrate_grid) and boolean data (c06_mask_sum)
+    if ctx.hist_lines:
+        for (case, K, impl, mag), r in zip(ctx.hist_meta, ck.run_model("c06_hist", ctx.hist_lines)):
+            n += 1
+            if r[0] != "ok" or len(r[5]) != 1 or not close(impl, Fraction(r[5][0], 1 << K), mag):
+                if len(ck.corr_failures) < 5:
+                    ck.corr_failures.append({"what": "c06_integrate_grid differs from integrate() on a grid with stored areas/history",
+                                             "model": str(r)[:120], "impl": impl, "case": case["grid"]["name"]})
+    if ctx.mask_lines:
+        for (case, K, impl, mag), r in zip(ctx.mask_meta, ck.run_model("c06_mask", ctx.mask_lines)):
+            n += 1
+            if not close(impl, Fraction(r, 1 << K), mag):
+                if len(ck.corr_failures) < 5:
+                    ck.corr_failures.append({"what": "c06_mask_sum differs from integrate() of boolean data",
+                                             "model": float(Fraction(r, 1 << K)), "impl": impl, "case": case["grid"]["name"]})
     return n, "dimension names n_node / n_edge rejected first, then size dispatch (c06_integrate_cur, fix 3b40859b)"
 
 
